@@ -72,6 +72,7 @@ pub struct World {
     pub vals: HashMap<u64, VState>,
     pub stream_kind: bool,
     pub nevents: u64,
+    pub next_work: usize,
 }
 
 pub static WORLD: Mutex<Option<World>> = Mutex::new(None);
@@ -104,6 +105,7 @@ impl World {
             vals: HashMap::new(),
             stream_kind,
             nevents: 0,
+            next_work: 1,
         }
     }
 
